@@ -93,7 +93,16 @@ func C14Configs(p *spec.Program) []spec.Config {
 		c.SchemaTypes[k] = st
 	}
 	c.SchemaTypes["Scalars.FInt32"] = spec.SimInt32Override
-	return []spec.Config{a, b, c}
+	// `types` entries spelled with a package qualifier (the plugin defines no such spelling: they select
+	// nothing), with different qualifiers, and no default package name
+	d := p.Config.Clone()
+	d.DefaultPackageName, d.TargetPackageName = "", ""
+	for i, t := range p.Config.Types {
+		if i < 6 {
+			d.Types = append(d.Types, []string{"types.", "alpha.", "example.com/beta/v1.", "p."}[i%4]+t)
+		}
+	}
+	return []spec.Config{a, b, c, d}
 }
 
 // C14ConfigsFor derives, for any program, two logical configurations with >= 2 entries in every map-
